@@ -7,14 +7,21 @@ import WacProofs.Lemmas.GraphNoPanic2
 namespace Wac.Graph
 open Wac Wac.HashSites
 
-/-- the export kinds of an instance kind are smaller kinds (kinds are finite trees; the
-    harness numbers them children first) -/
-def KindWF (ctx : Ctx) : Prop := ∀ k exps, ctx.kindExports k = some exps → ∀ p ∈ exps, p.2 < k
-
 /-- dependency edges go from a type to a type defined from it (larger id) -/
 def DepOrder (g : Graph) : Prop :=
   ∀ e ∈ g.edges, e.kind = .dep → ∀ s d, g.node? e.src = some s → g.node? e.dst = some d →
     ∃ ts td, s.kind = .definition ts ∧ d.kind = .definition td ∧ ts < td
+
+/-- … which is part of the invariant -/
+theorem Inv.depOrder {ctx : Ctx} {g : Graph} (h : Inv ctx g) : DepOrder g := by
+  intro e he hk s d hs hd
+  obtain ⟨s', hs', d', hd', hkk⟩ := h.edges e he
+  rw [Option.mem_def, hs] at hs'
+  rw [Option.mem_def, hd] at hd'
+  cases hs'; cases hd'
+  rw [hk] at hkk
+  obtain ⟨ts, hts, td, htd, hlt⟩ := hkk
+  exact ⟨ts, td, defTy_eq_some.mp hts, defTy_eq_some.mp htd, hlt⟩
 
 /-- rank key of a node: definitions by type id, everything else by item kind -/
 def Node.key (x : Node) : Bool × Nat :=
